@@ -27,18 +27,19 @@ VARIABLES cmd, outs,          \* chosen in Init
           i,                  \* outcomes consumed = validation runs started
           once,               \* vrps: already retried
           initial, canRetry,  \* server loop flags
+          sanFails,           \* Engine::sanitize (the clean-up before a retried run) fails in this behaviour
           exit,               \* "running" | "ok" | "error" | "waiting" (server idle until next refresh)
           served,             \* C33: version counter of the served data (changes only on ok runs that change data)
           lastFailedChanged   \* C33: did a failed run change anything
 
-vars == <<cmd, outs, i, once, initial, canRetry, exit, served, lastFailedChanged>>
+vars == <<cmd, outs, i, once, initial, canRetry, sanFails, exit, served, lastFailedChanged>>
 
 Seqs(n) == UNION {[1..k -> Outcomes] : k \in 1..n}
 
 Init ==
   /\ cmd \in Commands
   /\ outs \in Seqs(MaxLen)
-  /\ i = 0 /\ once = FALSE /\ initial = TRUE /\ canRetry = TRUE
+  /\ i = 0 /\ once = FALSE /\ initial = TRUE /\ canRetry = TRUE /\ sanFails \in BOOLEAN
   /\ exit = "running" /\ served = 0 /\ lastFailedChanged = FALSE
 
 Next1 == outs[i + 1]
@@ -57,17 +58,23 @@ Run ==
                IF o = "ok" THEN exit' = "ok" /\ UNCHANGED <<once, initial, canRetry>>
                ELSE IF o = "fatal" THEN exit' = "error" /\ UNCHANGED <<once, initial, canRetry>>
                ELSE \* retryable
-                 IF once /\ Variant = "intended"
+                 IF once /\ Variant # "as_shipped"
                    THEN exit' = "error" /\ UNCHANGED <<once, initial, canRetry>>
-                   ELSE once' = TRUE /\ exit' = "running" /\ UNCHANGED <<initial, canRetry>>
+                 \* operation.rs (Vrps::run): `else if engine.sanitize().is_ok() { once = true; continue }`, otherwise the error exit
+                 ELSE IF sanFails /\ Variant # "retry_despite_failed_sanitize"
+                   THEN exit' = "error" /\ UNCHANGED <<once, initial, canRetry>>
+                   ELSE once' = (IF Variant = "retry_despite_failed_sanitize" THEN ~sanFails ELSE TRUE)
+                        /\ exit' = "running" /\ UNCHANGED <<initial, canRetry>>
           [] cmd = "server" ->
                /\ initial' = FALSE
                /\ IF o = "ok" THEN exit' = "running" /\ UNCHANGED <<once, canRetry>>
                   ELSE IF o = "fatal" THEN exit' = "error" /\ UNCHANGED <<once, canRetry>>
                   ELSE IF initial THEN exit' = "running" /\ UNCHANGED <<once, canRetry>>
+                  \* operation.rs:312-314: `if validation.sanitize().is_err() { break Err(Failed) }`
+                  ELSE IF canRetry /\ sanFails THEN exit' = "error" /\ UNCHANGED <<once, canRetry>>
                   ELSE IF canRetry THEN canRetry' = FALSE /\ exit' = "running" /\ UNCHANGED once
                   ELSE exit' = "error" /\ UNCHANGED <<once, canRetry>>
-  /\ UNCHANGED <<cmd, outs>>
+  /\ UNCHANGED <<cmd, outs, sanFails>>
 
 (* The environment has no more outcomes: a server keeps waiting, a        *)
 (* one-shot command that is still running here would run again.            *)
